@@ -153,15 +153,12 @@ pub open spec fn prefix_upto_threshold(all: Seq<Frame>, n: int) -> bool {
 //@@ match_str_desugar: match suffix {
 //@@ closure_spec: .and_then( ==> -> (o: Option<&str>) ensures match o { Some(s) => serde_json::json_str(*$1) == Some(s@), None => serde_json::json_str(*$1) is None }
 //@@ loop_spec: while let Some(frame) = recver.recv()
-    invariant_except_break
-        rem(recver) == all.subrange(n, all.len() as int),
     invariant
+        rem(recver) == all.subrange(n, all.len() as int),
         0 <= n <= all.len(), all == rem(old(recver)),
         forall|i: int| 0 <= i < n ==> (#[trigger] all[i]).topic@ != "xs.threshold"@,
         agrees1(topic_states@, fold1(all.subrange(0, n))), //# restart.handlers.fold_latest_register_not_cancelled
         obeys_key_model::<String>(), builds_valid_hashers::<std::hash::RandomState>(),
-    ensures
-        prefix_upto_threshold(all, n),
     decreases all.len() - n,
 //@@ loop_top: while let Some(frame) = recver.recv()
     broadcast use group_hash_axioms, axiom_string_ext, axiom_string_of_view, axiom_str_to_string, axiom_borrowed_str_contains, axiom_borrowed_str_maps, axiom_borrowed_str_removed,
@@ -200,6 +197,7 @@ pub open spec fn prefix_upto_threshold(all: Seq<Frame>, n: int) -> bool {
         }
     }
 //@@ header
+#[verifier::loop_isolation(false)]
 fn handlers_replay_fold(recver: &mut FrameReceiver) -> (r: (HashMap<String, TopicState>, Ghost<int>))
     ensures
         // the replay consumes the history up to the threshold marker and keeps, per NAME, the latest .register that was not
@@ -225,15 +223,12 @@ fn handlers_replay_fold(recver: &mut FrameReceiver) -> (r: (HashMap<String, Topi
 //@@ match_str_desugar: match suffix {
 //@@ closure_spec: .and_then( ==> -> (o: Option<&str>) ensures match o { Some(s) => serde_json::json_str(*$1) == Some(s@), None => serde_json::json_str(*$1) is None }
 //@@ loop_spec: while let Some(frame) = recver.recv()
-    invariant_except_break
-        rem(recver) == all.subrange(n, all.len() as int),
     invariant
+        rem(recver) == all.subrange(n, all.len() as int),
         0 <= n <= all.len(), all == rem(old(recver)),
         forall|i: int| 0 <= i < n ==> (#[trigger] all[i]).topic@ != "xs.threshold"@,
         agrees1(topic_states@, fold1(all.subrange(0, n))), 
         obeys_key_model::<String>(), builds_valid_hashers::<std::hash::RandomState>(),
-    ensures
-        prefix_upto_threshold(all, n),
     decreases all.len() - n,
 //@@ loop_top: while let Some(frame) = recver.recv()
     broadcast use group_hash_axioms, axiom_string_ext, axiom_string_of_view, axiom_str_to_string, axiom_borrowed_str_contains, axiom_borrowed_str_maps, axiom_borrowed_str_removed,
@@ -272,6 +267,7 @@ fn handlers_replay_fold(recver: &mut FrameReceiver) -> (r: (HashMap<String, Topi
         }
     }
 //@@ header
+#[verifier::loop_isolation(false)]
 fn handlers_replay_fold_by_context(recver: &mut FrameReceiver) -> (r: (HashMap<String, TopicState>, Ghost<int>))
     ensures
         // the replay consumes the history up to the threshold marker and keeps, per NAME, the latest .register that was not
@@ -337,15 +333,12 @@ pub open spec fn agrees_g(cf: Map<String, Frame>, m: Map<Seq<char>, Frame>) -> b
 //@@ strip: await
 //@@ closure_spec: .or_else( ==> -> (o: Option<&str>) ensures match o { Some(t) => has_suffix(frame.topic@, ".spawn"@) && t@ == strip(frame.topic@, ".spawn"@), None => !has_suffix(frame.topic@, ".spawn"@) }
 //@@ loop_spec: while let Some(frame) = recver.recv()
-    invariant_except_break
-        rem(recver) == all.subrange(n, all.len() as int),
     invariant
+        rem(recver) == all.subrange(n, all.len() as int),
         0 <= n <= all.len(), all == rem(old(recver)),
         forall|i: int| 0 <= i < n ==> (#[trigger] all[i]).topic@ != "xs.threshold"@,
         agrees_g(compacted_frames@, gfold(all.subrange(0, n))), //# restart.generators.last_spawn_or_error_per_name
         obeys_key_model::<String>(), builds_valid_hashers::<std::hash::RandomState>(),
-    ensures
-        prefix_upto_threshold(all, n),
     decreases all.len() - n,
 //@@ loop_top: while let Some(frame) = recver.recv()
     broadcast use group_hash_axioms, axiom_string_ext, axiom_string_of_view, axiom_str_to_string, axiom_display_str, axiom_pat_str;
@@ -364,6 +357,7 @@ pub open spec fn agrees_g(cf: Map<String, Frame>, m: Map<Seq<char>, Frame>) -> b
     let ghost fr0 = frame;
     proof { assert(gfold(all.subrange(0, n)) == gstep(m0, frame)); assert(agrees_g(cf0, m0)); }
 //@@ header
+#[verifier::loop_isolation(false)]
 fn generators_compaction_fold(recver: &mut FrameReceiver) -> (r: (HashMap<String, Frame>, Ghost<int>))
     ensures
         prefix_upto_threshold(rem(old(recver)), r.1@) && agrees_g(r.0@, gfold(rem(old(recver)).subrange(0, r.1@))), //# restart.generators.last_spawn_or_error_per_name
@@ -407,14 +401,11 @@ pub open spec fn defines_of(fs: Seq<Frame>) -> Seq<CmdEv> decreases fs.len() {
 //@@ after_all: handle_define( ==> Tracked(cx),
 //@@ rewrite: &mut commands ==> commands
 //@@ loop_spec: while let Some(frame) = recver.recv()
-    invariant_except_break
-        rem(recver) == all.subrange(n, all.len() as int),
     invariant
+        rem(recver) == all.subrange(n, all.len() as int),
         0 <= n <= all.len(), all == rem(old(recver)),
         forall|i: int| 0 <= i < n ==> (#[trigger] all[i]).topic@ != "xs.threshold"@,
         cx.log =~= old(cx).log + defines_of(all.subrange(0, n)), //# restart.commands.every_historical_define_in_order_nothing_else
-    ensures
-        prefix_upto_threshold(all, n),
     decreases all.len() - n,
 //@@ loop_top: while let Some(frame) = recver.recv()
     broadcast use axiom_pat_str;
@@ -429,6 +420,7 @@ pub open spec fn defines_of(fs: Seq<Frame>) -> Seq<CmdEv> decreases fs.len() {
         n = n + 1;
     }
 //@@ header
+#[verifier::loop_isolation(false)]
 fn commands_startup_fold(recver: &mut FrameReceiver, base_engine: Engine, store: StoreC, commands: &mut CommandMap, Tracked(cx): Tracked<&mut Cx>) -> (r: Ghost<int>)
     ensures
         prefix_upto_threshold(rem(old(recver)), r@)
@@ -554,8 +546,6 @@ pub open spec fn gen_events_all(fs: Seq<Frame>, tables: Seq<Map<String, Generato
         forall|i: int| 0 <= i < n ==> !has_suffix((#[trigger] all[i]).topic@, ".spawn"@) ==> (if i + 1 < n { tables[i + 1] == tables[i] } else { generators@ == tables[i] }), //# generator.live.table_changed_only_by_spawns
         obeys_key_model::<String>(), builds_valid_hashers::<std::hash::RandomState>(),
         n == 0 ==> generators@ == old(generators)@, n > 0 ==> tables[0] == old(generators)@,
-    ensures
-        n == all.len(),
     decreases all.len() - n,
 //@@ loop_top: while let Some(frame) = recver.recv()
     broadcast use group_hash_axioms, axiom_pat_str, axiom_string_ext, axiom_string_of_view, axiom_str_to_string, axiom_borrowed_str_contains, axiom_borrowed_str_maps;
@@ -574,6 +564,7 @@ pub open spec fn gen_events_all(fs: Seq<Frame>, tables: Seq<Map<String, Generato
     let ghost log0 = px.log;
     let ghost table_now = generators@;
 //@@ header
+#[verifier::loop_isolation(false)]
 fn generators_live_loop(recver: &mut FrameReceiver, generators: &mut HashMap<String, GeneratorTask>, engine: &EngineH, store: &StoreH, Tracked(px): Tracked<&mut Px>) -> (r: Ghost<Seq<Map<String, GeneratorTask>>>)
     requires obeys_key_model::<String>(), builds_valid_hashers::<std::hash::RandomState>(),
     ensures
@@ -619,8 +610,6 @@ pub open spec fn registers_of(fs: Seq<Frame>) -> Seq<StartEv> decreases fs.len()
     invariant
         0 <= n <= all.len(), all == rem(old(recver)), rem(recver) == all.subrange(n, all.len() as int), !lx.failed,
         lx.started =~= old(lx).started + registers_of(all.subrange(0, n)), //# handlers.live.every_register_started_once_in_order
-    ensures
-        n == all.len(),
     decreases all.len() - n,
 //@@ loop_top: while let Some(frame) = recver.recv()
     broadcast use axiom_pat_str;
@@ -632,6 +621,7 @@ pub open spec fn registers_of(fs: Seq<Frame>) -> Seq<StartEv> decreases fs.len()
         n = n + 1;
     }
 //@@ header
+#[verifier::loop_isolation(false)]
 fn handlers_live_loop(recver: &mut FrameReceiver, store: StoreH, engine: EngineH, Tracked(lx): Tracked<&mut Lx>) -> (r: Result<Ghost<int>, Error>)
     requires !old(lx).failed,
     ensures
@@ -694,8 +684,6 @@ pub open spec fn cmd_events_all(fs: Seq<Frame>, tables: Seq<Map<Seq<char>, Comma
         cx.log =~= old(cx).log + cmd_events_all(all.subrange(0, n), tables), //# command.live.define_registered_call_executed_once_if_defined
         forall|i: int| 0 <= i < n ==> !has_suffix((#[trigger] all[i]).topic@, ".define"@) ==> (if i + 1 < n { tables[i + 1] == tables[i] } else { cmap(commands) == tables[i] }), //# command.live.table_changed_only_by_defines
         n == 0 ==> cmap(commands) == cmap(old(commands)), n > 0 ==> tables[0] == cmap(old(commands)),
-    ensures
-        n == all.len(),
     decreases all.len() - n,
 //@@ loop_top: while let Some(frame) = recver.recv()
     broadcast use axiom_pat_str;
@@ -712,6 +700,7 @@ pub open spec fn cmd_events_all(fs: Seq<Frame>, tables: Seq<Map<Seq<char>, Comma
         assert(cmd_events_all(all.subrange(0, n), tables) == cmd_events_all(all.subrange(0, n - 1), t0) + cmd_events(frame, cmap(commands)));
     }
 //@@ header
+#[verifier::loop_isolation(false)]
 fn commands_live_loop(recver: &mut FrameReceiver, base_engine: &Engine, store: &StoreC, commands: &mut CommandMap, Tracked(cx): Tracked<&mut Cx>) -> (r: Ghost<Seq<Map<Seq<char>, CommandR>>>)
     ensures
         r@.len() == rem(old(recver)).len() && (r@.len() > 0 ==> r@[0] == cmap(old(commands)))
